@@ -16,10 +16,18 @@
 (*        "false","name"}, n], column (<<>> = default)]                    *)
 (*   R = [a |-> End, b |-> End, sym]  a relationship; each end is an       *)
 (*        attribute of entity `ent`:                                       *)
-(*   End = [ent, name, kind \in {"Required","Optional","Set"}, columns,    *)
-(*        nullable, index, cascade \in {"none","true","false"}, table      *)
-(*        (Set only), rcolumns (reverse_columns of a symmetric Set)]       *)
+(*   End = [ent, name, kind \in {"Required","Optional","Set",              *)
+(*        "PrimaryKey"}, columns, nullable, index, cascade \in {"none",    *)
+(*        "true","false"}, table (Set only), rcolumns (reverse_columns of  *)
+(*        a symmetric Set)]                                                *)
 (*        sym = TRUE: a = b is the single attribute Set(E, reverse=itself).*)
+(*        kind "PrimaryKey": `x = PrimaryKey(E)` - the reference is the    *)
+(*        whole primary key of its entity (class PrimaryKey(Required)); a  *)
+(*        Required end may also be named in pk (PrimaryKey(owner, no)).    *)
+(*        Either way the columns are primary key columns AND the child     *)
+(*        columns of a foreign key, which the schema must contain like the *)
+(*        one of any other reference; no separate index is made for them   *)
+(*        when they are a prefix of the primary key (ForeignKey.__init__). *)
 (* Names are sequences of one-character strings.                           *)
 (*                                                                         *)
 (* Expected(c, d), c = [dialect, maxlen, exec], is either                  *)
@@ -123,6 +131,8 @@ Sides(d) == {<<k, s>> \in (DOMAIN d.rels) \X {1, 2} : s = 1 \/ ~d.rels[k].sym}
 End(d, ks) == IF ks[2] = 1 THEN d.rels[ks[1]].a ELSE d.rels[ks[1]].b
 OtherSide(d, ks) == IF d.rels[ks[1]].sym THEN ks ELSE <<ks[1], 3 - ks[2]>>
 Other(d, ks) == End(d, OtherSide(d, ks))
+(* Attribute.is_required: Required and its subclass PrimaryKey *)
+IsReq(kind) == kind \in {"Required", "PrimaryKey"}
 IsM2M(d, k) == d.rels[k].a.kind = "Set" /\ d.rels[k].b.kind = "Set"
 
 (* entity table name: _table_ of the root, else get_default_entity_table_name *)
@@ -140,11 +150,14 @@ HoldsFk(d, ks) ==
     LET me == End(d, ks)  ot == Other(d, ks) IN
     /\ me.kind # "Set"
     /\ \/ ot.kind = "Set"
-       \/ me.kind = "Required"
+       \/ IsReq(me.kind)
        \/ me.columns # <<>>
        \/ /\ ot.columns = <<>>
-          /\ ot.kind # "Required"
+          /\ ~IsReq(ot.kind)
           /\ ~NameLT(d.ents[ot.ent].name, d.ents[me.ent].name)
+
+(* relationship attributes of entity i declared as x = PrimaryKey(E) *)
+PkEnds(d, i) == {ks \in Sides(d) : End(d, ks).ent = i /\ End(d, ks).kind = "PrimaryKey"}
 
 (* declared primary key of a root entity: names of the attributes; <<>> = the implicit `id` *)
 PkNames(d, r) ==
@@ -152,6 +165,7 @@ PkNames(d, r) ==
     IF e.pk # <<>> THEN e.pk
     ELSE IF \E k \in DOMAIN e.attrs : e.attrs[k].kind = "PrimaryKey"
          THEN <<e.attrs[CHOOSE k \in DOMAIN e.attrs : e.attrs[k].kind = "PrimaryKey"].name>>
+         ELSE IF PkEnds(d, r) # {} THEN <<End(d, CHOOSE ks \in PkEnds(d, r) : TRUE).name>>
          ELSE <<>>
 
 ScalarNamed(d, i, n) == {k \in DOMAIN d.ents[i].attrs : d.ents[i].attrs[k].name = n}
@@ -191,6 +205,18 @@ PkCols(c, d, r) ==
 TargetPkLen(c, d, ks) == Len(PkCols(c, d, RootIx(d, Other(d, ks).ent)))
 
 InSeq(x, s) == \E j \in DOMAIN s : s[j] = x
+
+(* The key columns of root r are made from the key columns of the roots in PkRefs(d, r).  A declaration in which
+   an entity's key is made from itself that way (x = PrimaryKey('T') inside T; PrimaryKey(parent, n) with
+   parent = Required('T'); A's key a reference to B and B's key a reference to A) denotes no schema: neither
+   the number nor the types of the key columns are determined (PkCols above would not terminate, so Expected
+   asks PkCyclic first). *)
+PkRefs(d, r) == {RootIx(d, Other(d, ks).ent) :
+                   ks \in {x \in Sides(d) : End(d, x).ent = r /\ HoldsFk(d, x) /\ InSeq(End(d, x).name, PkNames(d, r))}}
+RECURSIVE PkReach(_, _, _)
+PkReach(d, s, n) == IF n = 0 THEN s ELSE PkReach(d, s \cup UNION {PkRefs(d, x) : x \in s}, n - 1)
+PkCyclic(d) == \E r \in Roots(d) : r \in PkReach(d, PkRefs(d, r), Len(d.ents))
+
 InKeyOrIndex(e, n) == \/ \E j \in DOMAIN e.ckeys : InSeq(n, e.ckeys[j])
                       \/ \E j \in DOMAIN e.cidx : InSeq(n, e.cidx[j])
 InPk(d, i, n) == ~IsSub(d, i) /\ InSeq(n, PkNames(d, i))
@@ -210,13 +236,15 @@ ScalarNullable(c, d, i, a) ==
 EndNullable(d, ks) ==
     LET me == End(d, ks) IN
     IF IsSub(d, me.ent) THEN TRUE
-    ELSE IF me.kind = "Required" THEN me.nullable = "true"
+    ELSE IF IsReq(me.kind) THEN me.nullable = "true"
     ELSE TRUE
 
-(* on-delete action of the foreign key held by end ks *)
+(* on-delete action of the foreign key held by end ks (Attribute.linked: cascade_delete of the reverse side
+   defaults to "it is a collection and this side is required"; generate_mapping: CASCADE / SET NULL / none).
+   The same for a reference that is (part of) the primary key: its columns are NOT NULL, so never SET NULL. *)
 OnDelete(d, ks) ==
     LET me == End(d, ks)  ot == Other(d, ks)
-        cascade == IF ot.cascade = "none" THEN ot.kind = "Set" /\ me.kind = "Required" ELSE ot.cascade = "true"
+        cascade == IF ot.cascade = "none" THEN ot.kind = "Set" /\ IsReq(me.kind) ELSE ot.cascade = "true"
     IN IF cascade THEN "CASCADE"
        ELSE IF me.kind = "Optional" /\ EndNullable(d, ks) THEN "SET NULL"
        ELSE "NO ACTION"
@@ -304,7 +332,8 @@ BadEntity(c, d, i) ==
     UNION {BadScalar(c, d, i, e.attrs[k]) : k \in DOMAIN e.attrs}
     \cup (IF IsSub(d, i) /\ e.table # <<>> THEN {"table-name-in-subclass"} ELSE {})
     \cup (IF IsSub(d, i) /\ e.pk # <<>> THEN {"primary-key-in-subclass"} ELSE {})
-    \cup (IF Cardinality({k \in DOMAIN e.attrs : e.attrs[k].kind = "PrimaryKey"}) + (IF e.pk # <<>> THEN 1 ELSE 0) > 1
+    \cup (IF Cardinality({k \in DOMAIN e.attrs : e.attrs[k].kind = "PrimaryKey"}) + Cardinality(PkEnds(d, i))
+             + (IF e.pk # <<>> THEN 1 ELSE 0) > 1
           THEN {"two-primary-keys"} ELSE {})
     \cup (IF \E j1 \in DOMAIN e.ckeys : \E j3 \in DOMAIN e.cidx : e.ckeys[j1] = e.cidx[j3]
           THEN {"key-and-index-on-same-columns"} ELSE {})
@@ -314,7 +343,8 @@ BadEntity(c, d, i) ==
 
 BadEnd(c, d, ks) ==
     LET me == End(d, ks)  ot == Other(d, ks)  k == ks[1] IN
-    (IF me.kind = "Required" /\ ot.kind = "Required" THEN {"one-to-one-both-required"} ELSE {})
+    (IF IsReq(me.kind) /\ IsReq(ot.kind) THEN {"one-to-one-both-required"} ELSE {})
+    \cup (IF me.kind = "PrimaryKey" /\ IsSub(d, me.ent) THEN {"key-or-discriminator-in-subclass"} ELSE {})
     \cup (IF me.kind = "Optional" /\ me.nullable = "false" THEN {"optional-non-string-not-nullable"} ELSE {})
     \cup (IF me.kind # "Set" /\ IsSub(d, me.ent) /\ me.nullable = "false" THEN {"subclass-attribute-not-nullable"} ELSE {})
     \cup (IF me.kind = "Optional" /\ InPk(d, me.ent, me.name) THEN {"optional-in-primary-key"} ELSE {})
@@ -477,7 +507,7 @@ NameProblems(c, ns, explicit) ==
 TablesDistinct(tabs) == Cardinality({t.name : t \in tabs}) = Cardinality(tabs)
 
 Expected(c, d) ==
-    LET bad == StructuralRejects(c, d) IN
+    LET bad == IF PkCyclic(d) THEN {"primary-key-contains-itself"} ELSE StructuralRejects(c, d) IN
     IF bad # {} THEN [status |-> "rejected", reasons |-> bad]
     ELSE LET tabs == Tables(c, d)
              problems == (IF TablesDistinct(tabs) THEN {} ELSE {"tables"}) \cup NameProblems(c, NamesOf(tabs), ExplicitNames(d))
